@@ -144,7 +144,7 @@ def N2(inp):
     return Res(cl, nontrivial=True, obs=lambda: dict(kind=kind, dropped=drop_first, state=conn.state, conn=[str(x) for x in ev.conn], msgs=len(new_msgs), exc=show(exc)))
 
 
-@obligation('N2r', props=('C14', 'C18'), quick=[dict(k=4)], thorough=[dict(k=5)], stubs=_STUBS,
+@obligation('N2r', props=('C14', 'C18'), quick=[dict(k=4)], thorough=[dict(k=5), dict(k=6)], stubs=_STUBS,
             bounds='k<=5 events over 3 read-only peers: join, leave, message - in any order (case split)')
 def N2r(inp, k):
     """read-only peers: at any time every connected read-only peer has its own node identity and its own connection - joins,
